@@ -211,6 +211,40 @@ def long_scripts() -> list[tuple[list[str], int, float | None]]:
     return out
 
 
+def limit_structured_scripts(tier: str) -> list[tuple[list[str], int]]:
+    """Scripts built from long runs around the pending / silence limits, over several attempts:
+    attempt = Pending^a . Timeout^b . Pending^c . terminator ; the terminators that make the client
+    retry (silence up to the limit, connection error, empty read) chain a further attempt."""
+    a_s = [1, 70] + ([119] if tier == "thorough" else [])
+    b_s = [0, 1, 39] + ([20] if tier == "thorough" else [])
+    terms_retry = [["Timeout"] * 40, ["ConnErr"], ["Empty"]]
+    terms_final = [["PosFinal"], ["NegFinal"], ["Busy"]]
+    attempts_retry: list[list[str]] = []
+    attempts_final: list[list[str]] = []
+    for a in a_s:
+        for b in b_s:
+            for c in (0, 1):
+                body = ["Pending"] * a + ["Timeout"] * b + ["Pending"] * c
+                if b == 0 and c == 1:
+                    continue
+                for t in terms_retry:
+                    attempts_retry.append(body + t)
+                for t in terms_final:
+                    attempts_final.append(body + t)
+    out: list[tuple[list[str], int]] = []
+    for first in attempts_retry:
+        for second in attempts_final:
+            out.append((first + second, 1))
+    if tier == "thorough":
+        for i, first in enumerate(attempts_retry):
+            for j, second in enumerate(attempts_retry):
+                if (i + j) % 3:
+                    continue
+                for third in attempts_final[:: 4]:
+                    out.append((first + second + third, 2))
+    return out
+
+
 def run(tier: str, seed: int) -> Report:
     quiet_gallia_logging()
     rep = Report("C04", tier, seed)
@@ -276,6 +310,9 @@ def run(tier: str, seed: int) -> Report:
     for script, R, ot in long_scripts():
         add(execute(ListEnv(script), client_retry=R, override_retry=None, client_timeout=2.0,
                     override_timeout=ot), "long")
+    for script, R in limit_structured_scripts(tier):
+        add(execute(ListEnv(script), client_retry=R, override_retry=None, client_timeout=2.0,
+                    override_timeout=None), "limit-structured")
     rnd = random.Random(seed)
     nrand = 300 if tier == "quick" else 5000
     for _ in range(nrand):
